@@ -200,7 +200,7 @@ func vsoProbe(c vsoCase, out *vsoOut, followBound time.Duration) error {
 		obs = rig.cc.outboundObserver
 	}
 	resultBound := 5 * time.Second
-	short := 1500 * time.Millisecond
+	short := 500 * time.Millisecond
 	hold, hw, herr, _ := vsoOpen(rig, c.Srv, vsoWellFormed(3, vsoHoldShard), 10*time.Second)
 	if hw != "served-open" {
 		return fmt.Errorf("rig not usable: the first well-formed stream was not served (%s %v)", hw, herr)
@@ -311,7 +311,7 @@ func TestVerifStreamObs(t *testing.T) {
 		par = v
 	}
 	sem := make(chan struct{}, par)
-	bigSem := make(chan struct{}, 1)
+	bigSem := make(chan struct{}, 2)
 	var wg sync.WaitGroup
 	var emu sync.Mutex
 	var firstErr error
